@@ -134,8 +134,8 @@ Theorem C20_dispatch_refuses : forall s id m a newid,
 Proof. exact dispatch_refuses. Qed.
 Print Assumptions C20_dispatch_refuses.
 
-(* the strongest true form of "a proxy behaves like the local object": through a live proxy,
-   every method the server exposes *)
+(* "a proxy behaves like the local object": through a live proxy, every method the server
+   exposes ... *)
 Theorem C20_proxy_call_refines_local_partial : forall y k p m a newid,
     sysinv y -> nth_error (y_proxies y) k = Some p ->
     exists o t,
@@ -150,19 +150,52 @@ Theorem C20_proxy_call_refines_local_partial : forall y k p m a newid,
 Proof. exact proxy_call_refines_local. Qed.
 Print Assumptions C20_proxy_call_refines_local_partial.
 
-(* ... and the full statement ("every method the proxy class offers") is refuted *)
-Theorem C20_iterator_next_refuted :
+(* ... for every method the proxy class offers (the Iterator typeid included, since the repair
+   of IteratorProxy._exposed_ in /repo) *)
+Theorem C20_proxy_call_refines_local : forall y k p m a newid,
+    sysinv y -> nth_error (y_proxies y) k = Some p ->
+    exists o t,
+      dget (objs (y_srv y)) (p_id p) = Some (SlotE o t) /\
+      (offered t m = true -> has_attr t m = true -> m2t_of t m = None ->
+       let r := apply_local o t m a in
+       let d := dispatch (y_srv y) (p_id p) m a newid in
+       fst d = reply_of_local r /\
+       dget (objs (snd d)) (p_id p) = Some (SlotE (obj_of_local o r) t) /\
+       (forall id', id' <> p_id p -> dget (objs (snd d)) id' = dget (objs (y_srv y)) id') /\
+       rcs (snd d) = rcs (y_srv y)).
+Proof. exact proxy_call_refines_local_offered. Qed.
+Print Assumptions C20_proxy_call_refines_local.
+
+(* what IteratorProxy offers is what the real Server.create exposes on this run (fails to
+   compile if the `_exposed` typo returns: exposed_iter would be empty) *)
+Theorem C20_iterator_offered_is_exposed :
+  smem "__next__" G_manager.proxy_methods_iter = true /\
+  smem "__next__" G_manager.exposed_iter = true /\
+  forall m, offered TIter m = smem (mname m) G_manager.exposed_iter.
+Proof. exact iterator_offered_tie. Qed.
+Print Assumptions C20_iterator_offered_is_exposed.
+
+(* next(proxy) = next(local iterator): next element and the iterator advanced, or StopIteration *)
+Theorem C20_iterator_next_like_local : forall s id l newid,
+    dget (objs s) id = Some (SlotE (OIter l) TIter) ->
+    dispatch s id M_next [] newid =
+    match l with
+    | [] => (R_error E_StopIteration, s)
+    | x :: r => (R_return (VInt x), set_obj s id (OIter r) TIter)
+    end.
+Proof. exact iterator_next_like_local. Qed.
+Print Assumptions C20_iterator_next_like_local.
+
+(* the witness that refuted C20 before the repair, with its behaviour now *)
+Theorem C20_iterator_witness_now_holds :
   Forall ev_ok iter_witness /\
   let y := fst (crun init_sys iter_witness) in
   y_proxies y = [mk_proxy 7 1 true] /\
   dget (objs (y_srv y)) 1 = Some (SlotE (OIter [4; 5]) TIter) /\
-  offered TIter M_next = true /\
-  apply_local (OIter [4; 5]) TIter M_next [] = LRet (VInt 4) (OIter [5]) /\
-  fst (dispatch (y_srv y) 1 M_next [] 9) = R_traceback E_Key /\
-  smem "__next__" G_manager.proxy_methods_iter = true /\
-  G_manager.exposed_iter = [].
-Proof. exact iterator_next_refuted. Qed.
-Print Assumptions C20_iterator_next_refuted.
+  fst (dispatch (y_srv y) 1 M_next [] 9) = R_return (VInt 4) /\
+  dget (objs (snd (dispatch (y_srv y) 1 M_next [] 9))) 1 = Some (SlotE (OIter [5]) TIter).
+Proof. exact iterator_witness_now_holds. Qed.
+Print Assumptions C20_iterator_witness_now_holds.
 
 (* user-level operations on real proxies (create / copy / drop / call incl. the construction
    of result proxies) keep the invariant *)
